@@ -230,6 +230,20 @@ CHECKS = {
         note=BASE_NOTE + 'The proved share covers expressions and the assembler only; the rest of the claim is exploration and says so. '
              'RecursionError is retried with a larger interpreter limit (the property bounds nesting).',
         technique='Lean 4 theorems over the expression-compiler and assembler models + correspondence + fuzzing search of the unmodelled stages'),
+    'C05': dict(
+        category='proof',
+        text='PARTIAL. Proved over Model/Blocks.lean (parser.parse_string, Block.create, the create_block rules; any program): an '
+             'accepting run has as many openers as terminators of every kind, so an unclosed block or a surplus terminator is never '
+             'accepted wherever it stands; every reported position is the position of a statement of the program; properly nested '
+             'statements are consumed wherever they stand (a valid construct is not rejected because of its surroundings). Proved '
+             'over the regenerated operator tables: an accepted operator application has accepted operands, an ill-typed operand '
+             'rejects the whole expression. The block model is corresponded with the real parser on random statement sequences '
+             '(verdict, error class, line). Names, labels, argument lists, array rank, CONST, literals and their positions: '
+             '55-entry fault catalogue injected one at a time into valid programs at main / nested / SUB / single-line-IF sites, '
+             'all levels and debug settings; neutral insertions must stay accepted.',
+        design_ref='DESIGN.md section 9 C05',
+        note=BASE_NOTE + 'The expected category and line per catalogue entry are the property wording applied by hand.',
+        technique='Lean 4 theorems over a block-assembly model and the operator tables + correspondence with the real parser + fault-injection oracle'),
 }
 
 PENDING = ('not yet decided by the Lean framework in this commit; design in DESIGN.md section 9, implementation order in '
